@@ -26,6 +26,8 @@ def main():
     out = Path(opts.get("--out", VERIF / "seeded" / "MATRIX.json"))
     res = json.loads(out.read_text()) if out.exists() else {}
     for sd in seeds:
+        if "--only-missing" in a and sd in res and all(p in res[sd] for p in props):
+            continue
         d = Path(tempfile.mkdtemp(prefix="cfdp-mx-", dir="/tmp"))
         try:
             subprocess.run(f"cp -r /repo/src {d}/src", shell=True, check=True)
